@@ -249,7 +249,7 @@ def main(argv):
             b = base.get(v.func)
             if not b or v.name in reported or v.name not in b['proved']: continue
             root = next((i['function'] for i in infos if i['function'].split(':')[1] in v.name), v.func)
-            changed = any(base.get(f, {}).get('sha256') != h for f, h in sha_now.items()) if b else False
+            changed = any(f in base and h and base[f].get('sha256') and base[f]['sha256'] != h for f, h in sha_now.items())
             if not changed: continue          # same source text as the baseline: solver instability, not a code change
             if match_known(prop, v.name): known.append((v.name, match_known(prop, v.name))); continue
             rp = os.path.join(VERIF, 'replays', prop, hashlib.sha1(v.name.encode()).hexdigest()[:12] + '.json')
@@ -310,7 +310,8 @@ def write_evidence(prop, tier, seed, spec, vcs, infos, und, hres, backends, wall
         backends=backends,
         solver_time_s=round(sum(v.time for v in vcs), 3),
         by_kind={k: sum(1 for v in vcs if v.kind == k) for k in sorted({v.kind for v in vcs})},
-        covers=sum(1 for v in vcs if v.expect == 'sat'),
+        covers=sum(1 for v in vcs if v.expect == 'sat' and v.result == 'sat'),
+        covers_unknown=sum(1 for v in vcs if v.expect == 'sat' and v.result != 'sat'),
         explanation=(spec.get('level_text', '') + ' -- ' if spec.get('level') == 'other' else '') + ('every obligation generated from the current /repo source was discharged'
                      if all_proved else 'not every obligation was discharged: see samples / functions_undecided') +
                     ('; ' + note if note else ''),
